@@ -27,6 +27,8 @@ const ULIMIT_KIB: u64 = 6 * 1024 * 1024;
 // ---------------------------------------------------------------------------
 
 pub struct Plan {
+    /// Number of jumbo scenarios, spread evenly over the search jobs `0..search`.
+    pub jumbo: u64,
     pub search: u64,
     pub bases: Vec<SweepBase>,
     pub offsets: Vec<u64>,
@@ -34,18 +36,19 @@ pub struct Plan {
     pub profile_salt: u64,
 }
 
-fn sizes(tier: &str, profile: &str) -> (u64, u64) {
+/// (search jobs, sweep base files, jumbo jobs)
+fn sizes(tier: &str, profile: &str) -> (u64, u64, u64) {
     match (tier, profile) {
-        ("quick", "checked") => (60_000, 6),
-        ("quick", _) => (20_000, 2),
-        ("thorough", "checked") => (12_000_000, 600),
-        ("thorough", _) => (4_000_000, 200),
-        _ => (2_000, 1),
+        ("quick", "checked") => (60_000, 6, 6),
+        ("quick", _) => (20_000, 2, 2),
+        ("thorough", "checked") => (12_000_000, 600, 400),
+        ("thorough", _) => (4_000_000, 200, 100),
+        _ => (2_000, 1, 1),
     }
 }
 
 pub fn plan<P: Property>(tier: &str, profile: &str, seed: u64) -> Plan {
-    let (search, n_bases) = sizes(tier, profile);
+    let (search, n_bases, jumbo) = sizes(tier, profile);
     let profile_salt = if profile == "checked" { 0 } else { 1 << 40 };
     let mut bases = Vec::new();
     let mut offsets = Vec::new();
@@ -56,12 +59,15 @@ pub fn plan<P: Property>(tier: &str, profile: &str, seed: u64) -> Plan {
         total += base.count() as u64;
         bases.push(base);
     }
-    Plan { search, bases, offsets, total, profile_salt }
+    Plan { jumbo, search, bases, offsets, total, profile_salt }
 }
 
 impl Plan {
     pub fn job<P: Property>(&self, seed: u64, index: u64) -> (P::Scn, &'static str, Option<String>) {
-        if index < self.search {
+        if self.jumbo > 0 && index < self.search && index % (self.search / self.jumbo) == 0 {
+            // spread evenly over the search range so that no worker gets them all
+            P::gen_jumbo(mix(seed, P::STREAM + 2000, index + self.profile_salt))
+        } else if index < self.search {
             P::gen(mix(seed, P::STREAM, index + self.profile_salt))
         } else {
             let b = match self.offsets.binary_search(&index) {
